@@ -1439,7 +1439,7 @@ def run(ctx):
                                     "equal"), ("interleaving", "random-3"))
 
     # 3. all routes against each other on random specs
-    n_specs = 30 if quick else 250
+    n_specs = 30 if quick else 150
     for k in range(n_specs):
         spec = gen_spec(rng, quick)
         routes = list(ALL_ROUTES)
@@ -1472,7 +1472,7 @@ def run(ctx):
 
     # 4b. histories that change the content (partial subsample, partial filter) against a fresh construction
     #     of the content they reached
-    for k in range(240 if quick else 1500):
+    for k in range(240 if quick else 800):
         spec = core.gen_spec(rng, max_n=4, max_m=4, classes=("count", "smallcount"))
         run_pair(ctx, pair_case(spec, rng.choice(CHANGING_ROUTES), None, rng.choice(["dense", "csr", "lol_coo_zeros", "csc"]),
                                 gen_steps(rng, rng.choice([0, 0, 1, 2])), "equal", exports=(k % 10 == 0)),
@@ -1480,7 +1480,7 @@ def run(ctx):
 
     # 4d. in-place changes (values along one axis, or two IDs swapped) on twins of equal content, one of which
     #     was read along that axis before the change; the same-axis questions come first afterwards
-    for k in range(110 if quick else 1500):
+    for k in range(110 if quick else 800):
         spec = gen_spec(rng, quick, nonuniform=False)
         axis = rng.choice(["observation", "sample"])
         op = INPLACE_OPS[k % len(INPLACE_OPS)]
@@ -1515,7 +1515,7 @@ def run(ctx):
 
     # 4f. aliasing: the SOURCE of a derivation (kept alive) after the derived table was updated in place must
     #     still equal an independent construction, have its content, and answer by ID through its own lookups
-    for k in range(100 if quick else 1500):
+    for k in range(100 if quick else 800):
         spec = gen_spec(rng, quick, nonuniform=(k % 5 == 0))
         if k % 3 == 0 and spec.get("omd") is None:
             spec["omd"] = core.gen_md(rng, spec["obs"], kind="mixed")
@@ -1579,7 +1579,7 @@ def run(ctx):
         ctx.count("single-difference=add_metadata", 2)
 
     # 5. single-difference pairs
-    for k in range(320 if quick else 4000):
+    for k in range(320 if quick else 2500):
         spec = gen_spec(rng, quick)
         kind, other = mutate(rng, spec)
         if kind is None:
@@ -1594,7 +1594,7 @@ def run(ctx):
             run_pair(ctx, pair_case(other, rb, spec, ra, st, "differs"), ("single-difference", "mutation=" + kind))
 
     # 6. kernel level: dataEq vs the real _data_equality, eliminateZeros vs scipy's eliminate_zeros
-    for k in range(700 if quick else 20000):
+    for k in range(700 if quick else 12000):
         run_kernel(ctx, gen_kernel_case(rng), ("kernel",))
 
     state_cases("late")
